@@ -87,6 +87,24 @@ class Vec(object):
         return 'Vec#%d(%s)' % (self.id, vs.show(self.val))
 
 
+class SharedVec(Vec):
+    """An element that shares its memory with other wrapper objects (two
+    `space.element(arr)` of one array, `z.real` taken twice): distinct
+    objects, one storage cell."""
+
+    def __init__(self, cell, space, label=None):
+        self.cell = cell
+        Vec.__init__(self, cell[0], space, label)
+
+    @property
+    def val(self):
+        return self.cell[0]
+
+    @val.setter
+    def val(self, v):
+        self.cell[0] = v
+
+
 class PVec(object):
     """Product-space element: list of parts (Vec or PVec)."""
 
@@ -617,6 +635,11 @@ class Interp(object):
             return self.wrap_result(res, op.range)
         if not isinstance(out, Vec):
             raise Undecided('out= is not a vector')
+        if out is x and getattr(self, 'alias_poison', False):
+            # an uninterpreted operator promises nothing for op(v, out=v);
+            # when the caller of the analysed expression did not alias, an
+            # aliased inner call is the expression's own doing
+            res = vs.sym('aliased-call:%s' % (op.term.key(),))
         out.val = dict(res)
         return out
 
